@@ -446,6 +446,7 @@ package common
 //@ axiom prop_scan_def: forall maxeb int, reg RegI, rounds int, active VIdxsT, seed Root32, k int :: {prop_scan(maxeb, reg, rounds, active, seed, k), ktrig(k)} prop_scan(maxeb, reg, rounds, active, seed, k) == ite(k >= 32000 || k < 0, 0 - 1, ite(prop_accept(maxeb, reg, rounds, active, seed, k), k, prop_scan(maxeb, reg, rounds, active, seed, k + 1)))
 //@ func ComputeProposerIndex(spec, registry, active, seed) (r, err)
 //@   property C07
+//@   nooverflow
 //@   requires spec != nil && registry != nil
 //@   requires len(active) <= 1099511627776
 //@   requires balances: spec.MAX_EFFECTIVE_BALANCE < 72057594037927936 && (forall v ValI :: {v_eb(v)} v_eb(v) < 72057594037927936)
